@@ -42,6 +42,10 @@ type Outcome struct {
 	Probes     map[string]int
 	Faults     map[string]int
 	Pattern    string // engine-specific classification of a violation, for known-finding matching
+	// ReplayTape / ReplayParams, when set, replace the batch tape and parameters in the replay
+	// file (engines that derive several cases from one seed, e.g. per-operation fault sweeps).
+	ReplayTape   []simrt.Rec
+	ReplayParams map[string]string
 }
 
 // Engine is implemented by each simulation engine.
@@ -317,6 +321,18 @@ func batch(t *testing.T, e Engine) {
 					Property: opt.Property, Engine: e.Name(), Format: 1, Seed: seed, Params: opt.Params,
 					Tape: tapeToJSON(tape.Records()), Violation: oc.Verdict, Pattern: oc.Pattern,
 					Faults: oc.Faults,
+				}
+				if oc.ReplayTape != nil {
+					rp.Tape = tapeToJSON(oc.ReplayTape)
+				}
+				if oc.ReplayParams != nil {
+					rp.Params = map[string]string{}
+					for k, v := range opt.Params {
+						rp.Params[k] = v
+					}
+					for k, v := range oc.ReplayParams {
+						rp.Params[k] = v
+					}
 				}
 				for a := range opt.Avoid {
 					rp.Avoid = append(rp.Avoid, a)
